@@ -447,8 +447,9 @@ func (r *run) handle(p []byte, extra int) {
 		stream, off, data, ms := Exec(&s, r.newPath, false, nil)
 		atomic.AddInt64(&r.nExec, 1)
 		// derived operations: once per distinct Data(); quick tier: short histories and a quarter of the others under
-		// the identity, an eighth of those also under the first extra embedding; thorough: half / a quarter
-		want := i == 0 && (len(l.Hist) <= 2 || h%4 == 0 || r.c.Thorough() && (len(l.Hist) <= 3 || h%2 == 0)) || i == 1 && (h%32 == 0 || r.c.Thorough() && h%4 == 0)
+		// the identity, an eighth of those also under the first extra embedding; thorough: also all histories of length 3,
+		// and a quarter of the sampled ones under the extra embedding (63 calls cost 2-10 ms per path)
+		want := i == 0 && (len(l.Hist) <= 2 || h%4 == 0 || r.c.Thorough() && len(l.Hist) <= 3) || i == 1 && (h%32 == 0 || r.c.Thorough() && h%16 == 0)
 		if stream != nil && want {
 			if _, dup := r.derived.LoadOrStore(bitsKey(en, data), true); !dup {
 				e, _ := EmbByName(en)
@@ -555,7 +556,7 @@ func (d Driver) Run(c *core.Ctx) error {
 	r.gen(tlc.Opts{Module: "Builder", Config: genCfg(3, 1, "arcs", false)}, extra) // depth 4 = 555 000 histories: too many
 	r.gen(tlc.Opts{Module: "Builder", Config: genCfg(c.Pick(3, 4), 1, "joins", false)}, extra)
 	depth := c.Pick(7, 8)
-	r.gen(tlc.Opts{Module: "Builder", Config: genCfg(depth, 2, "mix", false), Simulate: fmt.Sprintf("num=%d", c.Pick(20, 300)), Depth: depth + 1, Seed: c.Seed, Workers: 8}, extra)
+	r.gen(tlc.Opts{Module: "Builder", Config: genCfg(depth, 2, "mix", false), Simulate: fmt.Sprintf("num=%d", c.Pick(20, 100)), Depth: depth + 1, Seed: c.Seed, Workers: 8}, extra)
 	r.shapes()
 	c.Count(r.nExec, r.nontrivial, 0)
 
